@@ -67,9 +67,16 @@ TrUpdate ==
        /\ Check(e.post, act'.ok = e.ok)
   /\ l' = l + 1
 
+TrFailedTx ==
+  /\ IsEv("failedtx") /\ Exact
+  /\ LET e == TraceLog[l] IN
+       /\ FailedTx(e.kind, IF e.kind = "minter" THEN TrMinterUpdSeq[e.i] ELSE TrDistUpdSeq[e.i])
+       /\ Check(e.post, TRUE)
+  /\ l' = l + 1
+
 TrExport == IsEv("export") /\ Exact /\ ExportImport /\ Check(TraceLog[l].post, TRUE) /\ l' = l + 1
 
-TraceNext == TrReset \/ TrConfigure \/ TrBlock \/ TrFee \/ TrOpaque \/ TrUpdate \/ TrExport \/ TrSkip
+TraceNext == TrReset \/ TrConfigure \/ TrBlock \/ TrFee \/ TrOpaque \/ TrUpdate \/ TrFailedTx \/ TrExport \/ TrSkip
 TraceSpec == TraceInit /\ [][TraceNext]_tvars
 
 Mark == TLCSet(1, IF TLCGet(1) < l THEN l ELSE TLCGet(1))
